@@ -14,6 +14,8 @@ def configs(tier, seed):
                 cfgs.append(dict(model=model, branch=branch, n=3, labels=labels, weight=100))
             if tier == "thorough":
                 cfgs.append(dict(model=model, branch=branch, n=4, labels=[0, 1, 0, 1], weight=3000, deadline_s=1500))
+        # training rows of the pre-computed table in a non-default order (identifier 0 not first)
+        cfgs.append(dict(model=model, branch="pre", n=3, labels=[0, 1, 0], tr=[2, 0, 1], weight=100))
     return cfgs
 
 
